@@ -16,6 +16,7 @@ import (
 	"github.com/cbehopkins/gkvlite"
 
 	"verif/internal/decoder"
+	"verif/internal/gen"
 	"verif/internal/model"
 	"verif/internal/vfile"
 )
@@ -36,8 +37,9 @@ const (
 	// ItemValLength, which is what the aggregates must use on every path (C13).
 	CBValDouble CBMask = 1 << 8
 	// CBSwap is a BeforeItemWrite/AfterItemRead pair that changes the record: the item written is a
-	// substitute whose value carries a 4-byte checksum trailer, verified and stripped again after a
-	// read (the compression / integrity-trailer use of these callbacks).  Byte totals are not
+	// substitute whose key is encoded (every byte ^ 0x5a) and whose value carries a 4-byte checksum
+	// trailer; both are undone after a read (the encryption / compression / integrity-trailer use
+	// of these callbacks).  Byte totals are not
 	// compared under it: the store accounts an unwritten item by Item.Val and a written one by its
 	// record, so they depend on when each node was built.
 	CBSwap CBMask = 1 << 9
@@ -84,18 +86,21 @@ func (e *Env) Totals(m *model.Coll) (uint64, uint64) {
 
 // Config selects monitors and modes.
 type Config struct {
-	ReaderInRevert bool // a reader goroutine calls GetCollectionNames in the middle of every FlushRevert
-	MemOnly     bool
-	CB          CBMask
-	Walk        bool // tree walk + free-list reachability via the verif hooks after each step
-	ReadbackK   int  // full read-back of every open handle every K steps (0 = never, 1 = every step)
-	ReopenCheck bool // after each successful flush (and following steps) reopen a copy and compare (C02)
-	Decode      bool // decode image with the independent decoder after each flush (C14)
-	RefMon      bool // item reference count monitor (C15); forces CBAlloc|CBRef
-	Churn       bool // force reuse of freed nodes before read-backs (C10)
-	TrackValues bool // C19 value-range monitor
-	KeepLog     bool
-	ScanBound   bool // bound root-scan iterations through the rootscan.iter hook
+	ReaderInRevert   bool // a reader goroutine calls GetCollectionNames in the middle of every FlushRevert
+	IterAcrossRevert bool // an unfinished iterator is open across every FlushRevert
+	Recycle          bool // with RefMon: items whose count reaches zero are wiped (recycling allocator)
+	NoCmpCallback    bool // never install KeyCompareForCollection (the case keeps every state it loads in the default order)
+	MemOnly          bool
+	CB               CBMask
+	Walk             bool // tree walk + free-list reachability via the verif hooks after each step
+	ReadbackK        int  // full read-back of every open handle every K steps (0 = never, 1 = every step)
+	ReopenCheck      bool // after each successful flush (and following steps) reopen a copy and compare (C02)
+	Decode           bool // decode image with the independent decoder after each flush (C14)
+	RefMon           bool // item reference count monitor (C15); forces CBAlloc|CBRef
+	Churn            bool // force reuse of freed nodes before read-backs (C10)
+	TrackValues      bool // C19 value-range monitor
+	KeepLog          bool
+	ScanBound        bool // bound root-scan iterations through the rootscan.iter hook
 }
 
 // Violation is the first failure observed in a case.
@@ -166,10 +171,14 @@ type Env struct {
 	depthEpoch    int64
 	depthName     string
 	swapBad       int64
-	churnStore    *gkvlite.Store
-	churnN        int
-	ScanIters     int64
-	closedStores  []*gkvlite.Store
+	// Loading is the model state a reload in progress (open, FlushRevert) is loading; nil otherwise.
+	Loading          *model.State
+	nilDefaultCmp    bool
+	cmpOutsideReload int64
+	churnStore       *gkvlite.Store
+	churnN           int
+	ScanIters        int64
+	closedStores     []*gkvlite.Store
 }
 
 // NewEnv creates a store (file-backed unless cfg.MemOnly).
@@ -185,8 +194,10 @@ func NewEnvCmps(name string, cfg Config, cmps map[string]model.Cmp) *Env {
 	}
 	e := &Env{Cfg: cfg, Name: name, H: map[string]*gkvlite.Collection{}, M: model.NewStore(),
 		Stats: map[string]int64{}, Cmps: cmps}
+	e.nilDefaultCmp = gen.MixS(name)&1 == 1
 	if cfg.RefMon {
 		e.RC = NewRefMon()
+		e.RC.Recycle = cfg.Recycle
 	}
 	if !cfg.MemOnly {
 		e.F = vfile.New(name)
@@ -401,10 +412,17 @@ func (e *Env) callbacks() gkvlite.StoreCallbacks {
 		cb.BeforeItemWrite = func(c *gkvlite.Collection, i *gkvlite.Item) (*gkvlite.Item, error) {
 			atomic.AddInt64(&e.cbN[6], 1)
 			t := swapSum(i.Key, i.Val)
-			return &gkvlite.Item{Key: i.Key, Priority: i.Priority, Val: append(append(make([]byte, 0, len(i.Val)+4), i.Val...), t[:]...)}, nil
+			k := make([]byte, len(i.Key)) // the key is encoded at rest as well
+			for j, b := range i.Key {
+				k[j] = b ^ 0x5a
+			}
+			return &gkvlite.Item{Key: k, Priority: i.Priority, Val: append(append(make([]byte, 0, len(i.Val)+4), i.Val...), t[:]...)}, nil
 		}
 		cb.AfterItemRead = func(c *gkvlite.Collection, i *gkvlite.Item) (*gkvlite.Item, error) {
 			atomic.AddInt64(&e.cbN[7], 1)
+			for j := range i.Key {
+				i.Key[j] ^= 0x5a
+			}
 			if i.Val == nil {
 				return i, nil // loaded without its value
 			}
@@ -425,18 +443,40 @@ func (e *Env) callbacks() gkvlite.StoreCallbacks {
 			needCmp = true
 		}
 	}
-	if needCmp {
+	if needCmp && !e.Cfg.NoCmpCallback {
 		cb.KeyCompareForCollection = func(name string) gkvlite.KeyCompare {
 			atomic.AddInt64(&e.cbN[8], 1)
-			// the comparator the collection had in the state being loaded (after a re-open the
-			// live model IS the durable state); the per-name table is the fallback
-			if mc, ok := e.M.Live.Colls[name]; ok && mc.Cmp != "" {
-				return mc.Cmp.Func()
-			}
-			if c, ok := e.Cmps[name]; ok {
+			// "the default is bytes.Compare": in half of the environments the callback answers nil
+			// for a collection in the default order, as its documentation allows
+			fn := func(c model.Cmp) gkvlite.KeyCompare {
+				if (c == model.CmpBytes || c == "") && e.nilDefaultCmp {
+					return nil
+				}
 				return c.Func()
 			}
-			return bytes.Compare
+			// The callback is documented to be consulted when a store is (re)loaded from the file,
+			// and answers for the state being loaded: the comparator the collection of that name
+			// has in it.  Consulted at any other time it still answers by name for what is on the
+			// file - the last durable state - which need not be the comparator of a collection
+			// that was re-created since.
+			st := e.Loading
+			if st == nil {
+				atomic.AddInt64(&e.cmpOutsideReload, 1)
+				if len(e.M.Flushes) > 0 {
+					if mc, ok := e.M.Durable().Colls[name]; ok && mc.Cmp != "" {
+						return fn(mc.Cmp)
+					}
+				}
+			} else if mc, ok := st.Colls[name]; ok && mc.Cmp != "" {
+				return fn(mc.Cmp)
+			}
+			if mc, ok := e.M.Live.Colls[name]; ok && mc.Cmp != "" {
+				return fn(mc.Cmp)
+			}
+			if c, ok := e.Cmps[name]; ok {
+				return fn(c)
+			}
+			return fn(model.CmpBytes)
 		}
 	}
 	return cb
@@ -448,6 +488,8 @@ func (e *Env) callbacks() gkvlite.StoreCallbacks {
 func (e *Env) open() {
 	var s *gkvlite.Store
 	var err error
+	e.Loading = e.M.Durable()
+	defer func() { e.Loading = nil }()
 	run := e.guard
 	if e.Cfg.ScanBound && !e.Cfg.MemOnly {
 		run = e.boundedScan
@@ -936,6 +978,9 @@ func OpenCopyAndCompare(e *Env, b []byte, st *model.State, label string) {
 
 // AfterStep runs the always-on monitors.
 func (e *Env) AfterStep() {
+	if n := atomic.LoadInt64(&e.cmpOutsideReload); n > 0 {
+		e.Stats["cmp-callback-outside-reload"] = n
+	}
 	if e.Failed() {
 		return
 	}
